@@ -65,9 +65,10 @@ type File struct {
 }
 
 type fdEntry struct {
-	file  *File
-	owner string
-	gen   int
+	file   *File
+	owner  string
+	gen    int
+	origin string // the call that created this descriptor: socket, accept, dup, epoll_create, eventfd
 }
 
 // Use is one ledger record of a framework call on a descriptor.
@@ -306,6 +307,14 @@ func (k *Kernel) OpenFds(owner string) []int {
 }
 
 // KindOf returns the kind of the file behind an open descriptor.
+// OriginOf names the call that created the descriptor currently behind fd.
+func (k *Kernel) OriginOf(fd int) string {
+	if e := k.fds[fd]; e != nil {
+		return e.origin
+	}
+	return ""
+}
+
 func (k *Kernel) KindOf(fd int) string {
 	if e := k.fds[fd]; e != nil {
 		return e.file.kind.String()
